@@ -50,25 +50,25 @@ Section Propagate.
   Lemma ts_spec : GB gen_nn0_ts = ts.
   Proof. unfold gen_nn0_ts. cbv zeta. field. Qed.
 
-  Lemma mdf_spec : GA gen_oe_mean_anomaly + GA gen_sgp4_xmdot * ts = MDF El T.
-  Proof. unfold MDF. rewrite xmdot_spec by hyp. sp. reflexivity. Qed.
+  (* the secular mean anomaly is not a named quantity of the code: it is recognised inside cos / sin after both
+     sides' arguments are brought to ring normal form ([norm_args]) *)
 
   Lemma xmp_spec : GB gen_nn0_xmp = Mp El T.
   Proof.
-    unfold gen_nn0_xmp. cbv zeta. rewrite ts_spec, mdf_spec.
-    rewrite omgcof_spec, xmcof_spec, eta_spec, delmo_spec by hyp.
-    unfold Mp, delta_w, delta_M. sp. fold El. unfold aE. fold M0 w0.
+    unfold gen_nn0_xmp. cbv zeta. rewrite ts_spec.
+    rewrite xmdot_spec, omgcof_spec, xmcof_spec, eta_spec, delmo_spec by hyp.
+    unfold Mp, delta_w, delta_M, MDF. sp. fold El. unfold aE. fold M0 w0.
     pose proof (eta_bounds _ _ _ _ _ _ _ He Hperi) as Hb. fold El in Hb.
-    field. lra.
+    norm_args. field. lra.
   Qed.
 
   Lemma omega_spec : GB gen_nn0_omega = w El T.
   Proof.
-    unfold gen_nn0_omega. cbv zeta. rewrite ts_spec, mdf_spec.
-    rewrite omgcof_spec, xmcof_spec, eta_spec, delmo_spec, omgdot_spec by hyp.
-    unfold w, wDF, delta_w, delta_M. sp. unfold aE.
+    unfold gen_nn0_omega. cbv zeta. rewrite ts_spec.
+    rewrite xmdot_spec, omgcof_spec, xmcof_spec, eta_spec, delmo_spec, omgdot_spec by hyp.
+    unfold w, wDF, delta_w, delta_M, MDF. sp. unfold aE.
     pose proof (eta_bounds _ _ _ _ _ _ _ He Hperi) as Hb. fold El in Hb.
-    field. lra.
+    norm_args. field. lra.
   Qed.
 
   Lemma xnode_spec : GB gen_nn0_xnode = Om El T.
@@ -82,7 +82,7 @@ Section Propagate.
   Proof.
     unfold gen_nn0_guard0, gen_nn0_tempe. rewrite ts_spec, xmp_spec. rewrite c4_spec, c5_spec by hyp.
     unfold e_unclamped, gen_sgp4_sinXMO. sp. fold M0.
-    replace (sin (GA gen_oe_mean_anomaly)) with (sin M0) by reflexivity. ring.
+    replace (sin (GA gen_oe_mean_anomaly)) with (sin M0) by reflexivity. norm_args. ring.
   Qed.
 
   Lemma a_spec : GB gen_nn0_a = a El T.
@@ -105,7 +105,7 @@ Section Propagate.
   Lemma axn_spec : GB gen_nn0_axn = axN El T ecl.
   Proof.
     unfold gen_nn0_axn. cbv zeta. fold (GB gen_nn0_guard0). rewrite omega_spec, e_unclamped_spec.
-    reflexivity.
+    unfold axN. fold (clamp_e (e_unclamped El T)). fold ecl. eq_mod_ring.
   Qed.
 
   Lemma ecl_sq : 0 < 1 - ecl ^ 2.
@@ -127,10 +127,12 @@ Section Propagate.
 
   Lemma xlt_spec : a El T <> 0 -> GB gen_nn1_xlt = ILT El T ecl.
   Proof.
-    intros Ha. unfold gen_nn1_xlt. cbv zeta. rewrite IL_spec, axn_spec, e_unclamped_spec, a_spec.
+    intros Ha. unfold gen_nn1_xlt. cbv zeta.
+    rewrite xmp_spec, omega_spec, xnode_spec, axn_spec, e_unclamped_spec, a_spec. unfold gen_nn0_templ. rewrite ts_spec.
+    rewrite xnodp_spec, t2cof_spec, t3cof_spec, t4cof_spec, t5cof_spec by hyp.
     fold (clamp_e (e_unclamped El T)). fold ecl.
     rewrite xlcof_spec by hyp.
-    unfold ILT, ILL, axN, beta. sp. fold i0.
+    unfold ILT, IL, ILL, axN, beta. sp. fold i0.
     replace (sin (P_Sgp4Init.i0 incl_deg)) with (sin i0) by reflexivity.
     pose proof ecl_sq as Q. rewrite pow2_sqrt by lra.
     unfold k2, A30. field. split; [exact Hth|]. split; [lra|exact Ha].
@@ -140,10 +142,10 @@ Section Propagate.
   Proof. intros Ha. unfold gen_nn0_elsq, eL2. rewrite axn_spec, ayn_spec by exact Ha. ring. Qed.
 
   Lemma pl_spec : a El T <> 0 -> GB gen_nn0_pl = pL El T ecl.
-  Proof. intros Ha. unfold gen_nn0_pl, pL. rewrite a_spec, elsq_spec by exact Ha. reflexivity. Qed.
+  Proof. intros Ha. unfold gen_nn0_pl, pL. rewrite a_spec, elsq_spec by exact Ha. eq_mod_ring. Qed.
 
   Lemma betal_spec : a El T <> 0 -> GB gen_nn0_betal = sqrt (1 - eL2 El T ecl).
-  Proof. intros Ha. unfold gen_nn0_betal. rewrite elsq_spec by exact Ha. reflexivity. Qed.
+  Proof. intros Ha. unfold gen_nn0_betal. rewrite elsq_spec by exact Ha. eq_mod_ring. Qed.
 
   (* ---------- the short-period finishing map, for any value Ew of E + omega ---------- *)
   Variable Ew : R.
@@ -157,17 +159,17 @@ Section Propagate.
   Lemma fin_ecosE_spec : GC gen_nn0_fin_ecosE = ecosE El T ecl Ew.
   Proof.
     unfold gen_nn0_fin_ecosE, gen_nn0_fin_cosEPW, gen_nn0_fin_sinEPW, ecosE.
-    rewrite axn_spec, (ayn_spec Ha'). reflexivity.
+    rewrite axn_spec, (ayn_spec Ha'). eq_mod_ring.
   Qed.
 
   Lemma fin_esinE_spec : GC gen_nn0_fin_esinE = esinE El T ecl Ew.
   Proof.
     unfold gen_nn0_fin_esinE, gen_nn0_fin_cosEPW, gen_nn0_fin_sinEPW, esinE.
-    rewrite axn_spec, (ayn_spec Ha'). reflexivity.
+    rewrite axn_spec, (ayn_spec Ha'). eq_mod_ring.
   Qed.
 
   Lemma fin_r_spec : GC gen_nn0_fin_r = r El T ecl Ew.
-  Proof. unfold gen_nn0_fin_r, r. rewrite a_spec, fin_ecosE_spec. reflexivity. Qed.
+  Proof. unfold gen_nn0_fin_r, r. rewrite a_spec, fin_ecosE_spec. eq_mod_ring. Qed.
 
   Lemma ecosE_lt_1 : ecosE El T ecl Ew < 1.
   Proof.
@@ -189,40 +191,26 @@ Section Propagate.
   Proof. unfold pL. apply Rmult_lt_0_compat; lra. Qed.
 
   Lemma fin_invR_spec : GC gen_nn0_fin_invR = 1 / r El T ecl Ew.
-  Proof. unfold gen_nn0_fin_invR. rewrite fin_r_spec. reflexivity. Qed.
+  Proof. unfold gen_nn0_fin_invR. rewrite fin_r_spec. eq_mod_ring. Qed.
 
-  Lemma sinu_arg_spec :
-    GB gen_nn0_a * GC gen_nn0_fin_invR *
-      (GC gen_nn0_fin_sinEPW - GB gen_nn0_ayn - GB gen_nn0_axn * GC gen_nn0_fin_esinE * (1 / (1 + GB gen_nn0_betal)))
-    = sinu El T ecl Ew.
-  Proof.
-    rewrite a_spec, fin_invR_spec, axn_spec, (ayn_spec Ha'), fin_esinE_spec, (betal_spec Ha').
-    unfold gen_nn0_fin_sinEPW, sinu. pose proof r_pos.
-    assert (0 <= sqrt (1 - eL2 El T ecl)) by apply sqrt_pos.
-    field. split; lra.
-  Qed.
-
-  Lemma cosu_arg_spec :
-    GB gen_nn0_a * GC gen_nn0_fin_invR *
-      (GC gen_nn0_fin_cosEPW - GB gen_nn0_axn + GB gen_nn0_ayn * GC gen_nn0_fin_esinE * (1 / (1 + GB gen_nn0_betal)))
-    = cosu El T ecl Ew.
-  Proof.
-    rewrite a_spec, fin_invR_spec, axn_spec, (ayn_spec Ha'), fin_esinE_spec, (betal_spec Ha').
-    unfold gen_nn0_fin_cosEPW, cosu. pose proof r_pos.
-    assert (0 <= sqrt (1 - eL2 El T ecl)) by apply sqrt_pos.
-    field. split; lra.
-  Qed.
+  (* cos u, sin u are not named by the code: the three quantities built from them are compared with the report's
+     directly, modulo field, after the named pieces have been rewritten *)
+  Ltac fin_names :=
+    cbv zeta; rewrite ?a_spec, ?fin_invR_spec, ?axn_spec, ?(ayn_spec Ha'), ?fin_esinE_spec, ?(betal_spec Ha');
+    unfold gen_nn0_fin_sinEPW, gen_nn0_fin_cosEPW.
+  Ltac fin_side := pose proof r_pos; assert (0 <= sqrt (1 - eL2 El T ecl)) by apply sqrt_pos.
 
   Lemma fin_u_spec : GC gen_nn0_fin_u = atan2 (sinu El T ecl Ew) (cosu El T ecl Ew).
-  Proof. unfold gen_nn0_fin_u. cbv zeta. rewrite sinu_arg_spec, cosu_arg_spec. reflexivity. Qed.
+  Proof.
+    unfold gen_nn0_fin_u. fin_names. fin_side.
+    f_equal; [unfold sinu | unfold cosu]; field; split; lra.
+  Qed.
 
   Lemma fin_sin2u_spec : GC gen_nn0_fin_sin2u = sin2u El T ecl Ew.
-  Proof. unfold gen_nn0_fin_sin2u. cbv zeta. rewrite sinu_arg_spec, cosu_arg_spec. unfold sin2u. ring. Qed.
+  Proof. unfold gen_nn0_fin_sin2u. fin_names. fin_side. unfold sin2u, sinu, cosu. field. split; lra. Qed.
 
   Lemma fin_cos2u_spec : GC gen_nn0_fin_cos2u = cos2u El T ecl Ew.
-  Proof.
-    unfold gen_nn0_fin_cos2u. cbv zeta. rewrite !cosu_arg_spec. unfold cos2u. ring.
-  Qed.
+  Proof. unfold gen_nn0_fin_cos2u. fin_names. fin_side. unfold cos2u, cosu. field. split; lra. Qed.
 
   Ltac fin_norm :=
     cbv zeta; rewrite ?fin_r_spec, ?fin_cos2u_spec, ?fin_sin2u_spec, ?fin_u_spec, ?fin_esinE_spec, ?fin_invR_spec,
